@@ -30,8 +30,8 @@ class C03(Prop):
                         if tier == "quick" and len(ys) == 4 and (pi + inc + li) % 4:
                             continue
                         yield {"stream": "small", "f": "expectile", "level": lv, "inc": inc, "y": [str(v) for v in ys], "w": None if w is None else [str(v) for v in w]}
-        for k in range(700 if tier == "quick" else 20000):
-            n = rng.choice([1, 2, 3, 5, 8, 13, 30]) if rng.random() < 0.85 else rng.randint(31, 100 if tier == "quick" else 400)
+        for k in range(700 if tier == "quick" else 6000):
+            n = rng.choice([1, 2, 3, 5, 8, 13, 30]) if rng.random() < 0.85 else rng.randint(31, 100 if tier == "quick" else 150)
             yield {
                 "stream": "random",
                 "f": "expectile",
